@@ -418,6 +418,13 @@ def parseMessage(rawMessage, oobFDs):
         except KeyError:
             pass
 
+    if m.signature is not None and not isinstance(m.signature, str):
+        # a header field 8 sent with a value that is no string at all - a
+        # number, an array - is refused also when that value is falsy
+        raise error.MarshallingError(
+            'Invalid body signature in the message header'
+        )
+
     if m.signature:
         if not isinstance(m.signature, str) or len(m.signature) > 255:
             # a SIGNATURE is a string of at most 255 characters; a header
